@@ -1,3 +1,753 @@
 import Iscp.Model.Down
 import Iscp.Lemmas.C07
 /- helper lemmas for Props/C03.lean and Props/C04.lean -/
+
+namespace Iscp
+
+/-! ### association lists that grow at the end: the first binding wins -/
+
+theorem alGet_append_some {α} {k : Nat} {x : α} {l : List (Nat × α)} (m : List (Nat × α)) (h : alGet k l = some x) :
+    alGet k (l ++ m) = some x := by
+  induction l with
+  | nil => simp [alGet] at h
+  | cons e r ih =>
+    obtain ⟨k', v⟩ := e
+    rw [List.cons_append, alGet_cons]
+    rw [alGet_cons] at h
+    split
+    · next hk => rw [if_pos hk] at h; exact h
+    · next hk => rw [if_neg hk] at h; exact ih h
+
+theorem alGet_append_none {α} {k : Nat} {l : List (Nat × α)} (m : List (Nat × α)) (h : alGet k l = none) :
+    alGet k (l ++ m) = alGet k m := by
+  induction l with
+  | nil => rfl
+  | cons e r ih =>
+    obtain ⟨k', v⟩ := e
+    rw [List.cons_append, alGet_cons]
+    rw [alGet_cons] at h
+    split
+    · next hk => rw [if_pos hk] at h; cases h
+    · next hk => rw [if_neg hk] at h; exact ih h
+
+end Iscp
+
+namespace Iscp.Down
+open Iscp
+
+/-! ### frame lemmas: which fields each operation touches -/
+
+theorem initWith_shape (ids : List DataID) : ∃ g t, initWith ids = { idGen := g, idFwd := t } := by
+  have h : ∀ (s : St), ∃ g t,
+      ids.foldl (fun s d => let a := aliasNext s.idGen; { s with idGen := a, idFwd := s.idFwd ++ [(a, d)] }) s
+        = { s with idGen := g, idFwd := t } := by
+    induction ids with
+    | nil => intro s; exact ⟨s.idGen, s.idFwd, rfl⟩
+    | cons d r ih =>
+      intro s
+      obtain ⟨g, t, h⟩ := ih { s with idGen := aliasNext s.idGen, idFwd := s.idFwd ++ [(aliasNext s.idGen, d)] }
+      exact ⟨g, t, by rw [List.foldl_cons]; exact h⟩
+  obtain ⟨g, t, h⟩ := h {}
+  exact ⟨g, t, h⟩
+
+@[simp] theorem initWith_inbox (ids : List DataID) : (initWith ids).inbox = [] := by
+  obtain ⟨g, t, h⟩ := initWith_shape ids; rw [h]
+@[simp] theorem initWith_acks (ids : List DataID) : (initWith ids).acks = [] := by
+  obtain ⟨g, t, h⟩ := initWith_shape ids; rw [h]
+@[simp] theorem initWith_results (ids : List DataID) : (initWith ids).results = [] := by
+  obtain ⟨g, t, h⟩ := initWith_shape ids; rw [h]
+@[simp] theorem initWith_ackId (ids : List DataID) : (initWith ids).ackId = 0 := by
+  obtain ⟨g, t, h⟩ := initWith_shape ids; rw [h]
+@[simp] theorem initWith_metaBox (ids : List DataID) : (initWith ids).metaBox = [] := by
+  obtain ⟨g, t, h⟩ := initWith_shape ids; rw [h]
+@[simp] theorem initWith_metaAcks (ids : List DataID) : (initWith ids).metaAcks = [] := by
+  obtain ⟨g, t, h⟩ := initWith_shape ids; rw [h]
+@[simp] theorem initWith_upFwd (ids : List DataID) : (initWith ids).upFwd = [] := by
+  obtain ⟨g, t, h⟩ := initWith_shape ids; rw [h]
+@[simp] theorem initWith_upGen (ids : List DataID) : (initWith ids).upGen = 0 := by
+  obtain ⟨g, t, h⟩ := initWith_shape ids; rw [h]
+@[simp] theorem initWith_upAnn (ids : List DataID) : (initWith ids).upAnn = [] := by
+  obtain ⟨g, t, h⟩ := initWith_shape ids; rw [h]
+@[simp] theorem initWith_idAnn (ids : List DataID) : (initWith ids).idAnn = [] := by
+  obtain ⟨g, t, h⟩ := initWith_shape ids; rw [h]
+
+/-- assignUp only touches the upstream alias table, its generator and its announcement buffer -/
+theorem assignUp_shape (s : St) (r : UpRef) : ∃ g t a, assignUp s r = { s with upGen := g, upFwd := t, upAnn := a } := by
+  unfold assignUp
+  split
+  · exact ⟨_, _, _, rfl⟩
+  · split
+    · exact ⟨_, _, _, rfl⟩
+    · exact ⟨_, _, _, rfl⟩
+
+/-- assignIds only touches the data-id alias table, its generator and its announcement buffer -/
+theorem assignIds_shape (gs : List Up.WGroup) : ∀ (s : St), ∃ g t a, assignIds s gs = { s with idGen := g, idFwd := t, idAnn := a } := by
+  induction gs with
+  | nil => intro s; exact ⟨_, _, _, rfl⟩
+  | cons g r ih =>
+    intro s
+    unfold assignIds
+    split
+    · exact ih s
+    · split
+      · exact ih s
+      · obtain ⟨g', t, a, h⟩ := ih { s with idGen := aliasNext s.idGen, idFwd := s.idFwd ++ [(aliasNext s.idGen, _)],
+                                            idAnn := s.idAnn ++ [(aliasNext s.idGen, _)] }
+        exact ⟨g', t, a, h⟩
+
+/-- the state in which a read resolves the head chunk: both assignment passes done -/
+def readPre (s : St) (c : WChunk) (rest : List WChunk) : St :=
+  assignIds (assignUp { s with inbox := rest } c.up) c.groups
+
+theorem readPre_shape (s : St) (c : WChunk) (rest : List WChunk) : ∃ g t a g' t' a',
+    readPre s c rest = { s with inbox := rest, upGen := g, upFwd := t, upAnn := a, idGen := g', idFwd := t', idAnn := a' } := by
+  unfold readPre
+  obtain ⟨g, t, a, h⟩ := assignUp_shape { s with inbox := rest } c.up
+  obtain ⟨g', t', a', h'⟩ := assignIds_shape c.groups (assignUp { s with inbox := rest } c.up)
+  exact ⟨g, t, a, g', t', a', by rw [h', h]⟩
+
+theorem read_nil {s : St} (h : s.inbox = []) : read s = (s, .empty) := by
+  simp only [read, h]
+
+theorem read_cons {s : St} {c : WChunk} {rest : List WChunk} (h : s.inbox = c :: rest) :
+    read s = match resolveUp (readPre s c rest) c.up, resolveGroups (readPre s c rest) c.groups with
+      | some u, some gs => ({ readPre s c rest with results := (readPre s c rest).results ++ [(u, c.seq)] }, .chunk ⟨u, c.seq, gs⟩)
+      | _, _ => (readPre s c rest, .errAlias) := by
+  unfold read
+  split
+  · next h0 => rw [h] at h0; cases h0
+  · next c' rest' h0 => rw [h] at h0; cases h0; rfl
+
+theorem read_cons_some {s : St} {c : WChunk} {rest : List WChunk} (h : s.inbox = c :: rest) {u : Nat} {gs : Groups}
+    (hu : resolveUp (readPre s c rest) c.up = some u) (hg : resolveGroups (readPre s c rest) c.groups = some gs) :
+    read s = ({ readPre s c rest with results := (readPre s c rest).results ++ [(u, c.seq)] }, .chunk ⟨u, c.seq, gs⟩) := by
+  rw [read_cons h, hu, hg]
+
+theorem read_cons_none {s : St} {c : WChunk} {rest : List WChunk} (h : s.inbox = c :: rest)
+    (hn : resolveUp (readPre s c rest) c.up = none ∨ resolveGroups (readPre s c rest) c.groups = none) :
+    read s = (readPre s c rest, .errAlias) := by
+  rw [read_cons h]
+  split
+  · next hu hg => rw [hu, hg] at hn; simp at hn
+  · rfl
+
+/-- a read on a non-empty inbox: the two possible outcomes -/
+theorem read_cases {s : St} {c : WChunk} {rest : List WChunk} (h : s.inbox = c :: rest) :
+    (∃ u gs, resolveUp (readPre s c rest) c.up = some u ∧ resolveGroups (readPre s c rest) c.groups = some gs ∧
+        read s = ({ readPre s c rest with results := (readPre s c rest).results ++ [(u, c.seq)] }, .chunk ⟨u, c.seq, gs⟩)) ∨
+    ((resolveUp (readPre s c rest) c.up = none ∨ resolveGroups (readPre s c rest) c.groups = none) ∧
+        read s = (readPre s c rest, .errAlias)) := by
+  cases hu : resolveUp (readPre s c rest) c.up with
+  | none => exact .inr ⟨.inl rfl, read_cons_none h (.inl hu)⟩
+  | some u =>
+    cases hg : resolveGroups (readPre s c rest) c.groups with
+    | none => exact .inr ⟨.inr rfl, read_cons_none h (.inr hg)⟩
+    | some gs => exact .inl ⟨u, gs, rfl, rfl, read_cons_some h hu hg⟩
+
+/-! ### resolution -/
+
+theorem resolveGroups_congr {s s' : St} (h : s.idFwd = s'.idFwd) (gs : List Up.WGroup) :
+    resolveGroups s gs = resolveGroups s' gs := by
+  induction gs with
+  | nil => rfl
+  | cons g r ih => simp only [resolveGroups, h, ih]
+
+theorem resolveUp_congr {s s' : St} (h : s.upFwd = s'.upFwd) (r : UpRef) : resolveUp s r = resolveUp s' r := by
+  cases r <;> simp only [resolveUp, h]
+
+theorem resolveGroups_cons_some {s : St} {g : Up.WGroup} {r : List Up.WGroup} {rs : Groups}
+    (h : resolveGroups s (g :: r) = some rs) :
+    ∃ d rs', rs = ⟨d, g.points⟩ :: rs' ∧ resolveGroups s r = some rs' ∧
+      (match g.ref with | .id d' => d = d' | .alias a => alGet a s.idFwd = some d) := by
+  unfold resolveGroups at h
+  cases hg : g.ref with
+  | id d' =>
+    rw [hg] at h
+    dsimp only at h
+    cases hr : resolveGroups s r with
+    | none => rw [hr] at h; simp at h
+    | some rs' =>
+      rw [hr] at h
+      simp only [Option.some.injEq] at h
+      exact ⟨d', rs', h.symm, rfl, rfl⟩
+  | «alias» a =>
+    rw [hg] at h
+    dsimp only at h
+    cases ha : alGet a s.idFwd with
+    | none => rw [ha] at h; simp at h
+    | some d =>
+      cases hr : resolveGroups s r with
+      | none => rw [ha, hr] at h; simp at h
+      | some rs' =>
+        rw [ha, hr] at h
+        simp only [Option.some.injEq] at h
+        exact ⟨d, rs', h.symm, rfl, ha⟩
+
+theorem resolveGroups_points {s : St} : ∀ {gs : List Up.WGroup} {rs : Groups}, resolveGroups s gs = some rs →
+    rs.map (·.points) = gs.map (·.points)
+  | [], rs, h => by simp only [resolveGroups, Option.some.injEq] at h; subst h; rfl
+  | g :: r, rs, h => by
+    obtain ⟨d, rs', rfl, hr, _⟩ := resolveGroups_cons_some h
+    simp only [List.map_cons, resolveGroups_points hr]
+
+theorem resolveGroups_get {s : St} : ∀ {gs : List Up.WGroup} {rs : Groups}, resolveGroups s gs = some rs →
+    ∀ i (hi : i < gs.length) (hj : i < rs.length),
+      match gs[i].ref with
+      | .id d => rs[i].id = d
+      | .alias a => alGet a s.idFwd = some rs[i].id
+  | [], _, _, i, hi, _ => by simp at hi
+  | g :: r, rs, h, i, hi, hj => by
+    obtain ⟨d, rs', rfl, hr, hd⟩ := resolveGroups_cons_some h
+    cases i with
+    | zero => exact hd
+    | succ i =>
+      simp only [List.getElem_cons_succ]
+      exact resolveGroups_get hr i (by simpa using hi) (by simpa using hj)
+
+theorem resolveGroups_none {s : St} : ∀ {gs : List Up.WGroup},
+    resolveGroups s gs = none ↔ ∃ g ∈ gs, ∃ a, g.ref = .alias a ∧ alGet a s.idFwd = none
+  | [] => by simp [resolveGroups]
+  | g :: r => by
+    have ih := @resolveGroups_none s r
+    unfold resolveGroups
+    cases hg : g.ref with
+    | id d =>
+      dsimp only
+      cases hr : resolveGroups s r with
+      | none =>
+        simp only [true_iff]
+        obtain ⟨g', hm, a, h1, h2⟩ := ih.mp hr
+        exact ⟨g', List.mem_cons_of_mem _ hm, a, h1, h2⟩
+      | some rs' =>
+        simp only [reduceCtorEq, false_iff]
+        rintro ⟨g', hm, a, h1, h2⟩
+        rcases List.mem_cons.mp hm with rfl | hm
+        · rw [hg] at h1; cases h1
+        · have := ih.mpr ⟨g', hm, a, h1, h2⟩
+          rw [hr] at this; cases this
+    | «alias» a =>
+      dsimp only
+      cases ha : alGet a s.idFwd with
+      | none =>
+        simp only [true_iff]
+        exact ⟨g, List.mem_cons_self, a, hg, ha⟩
+      | some d =>
+        cases hr : resolveGroups s r with
+        | none =>
+          simp only [true_iff]
+          obtain ⟨g', hm, a', h1, h2⟩ := ih.mp hr
+          exact ⟨g', List.mem_cons_of_mem _ hm, a', h1, h2⟩
+        | some rs' =>
+          simp only [reduceCtorEq, false_iff]
+          rintro ⟨g', hm, a', h1, h2⟩
+          rcases List.mem_cons.mp hm with rfl | hm
+          · rw [hg] at h1; cases h1; rw [ha] at h2; cases h2
+          · have := ih.mpr ⟨g', hm, a', h1, h2⟩
+            rw [hr] at this; cases this
+
+theorem resolveUp_none {s : St} {r : UpRef} : resolveUp s r = none ↔ ∃ a, r = .alias a ∧ alGet a s.upFwd = none := by
+  cases r with
+  | info u => simp [resolveUp]
+  | «alias» a => simp [resolveUp]
+
+/-! ### shapes of the remaining operations -/
+
+theorem arrive_shape (s : St) (c : WChunk) : ∃ i, arrive s c = { s with inbox := i } := by
+  unfold arrive; split
+  · exact ⟨_, rfl⟩
+  · exact ⟨s.inbox, rfl⟩
+
+theorem arrive_of_lt {s : St} (c : WChunk) (h : s.inbox.length < cap) : arrive s c = { s with inbox := s.inbox ++ [c] } := by
+  unfold arrive; rw [if_pos h]
+
+theorem arriveMeta_shape (s : St) (n r : Nat) : ∃ b, arriveMeta s n r = { s with metaBox := b } := by
+  unfold arriveMeta; split
+  · exact ⟨_, rfl⟩
+  · exact ⟨s.metaBox, rfl⟩
+
+theorem arriveMeta_of_lt {s : St} (n r : Nat) (h : s.metaBox.length < cap) :
+    arriveMeta s n r = { s with metaBox := s.metaBox ++ [(n, r)] } := by
+  unfold arriveMeta; rw [if_pos h]
+
+theorem readMeta_shape (s : St) : ∃ b a, (readMeta s).1 = { s with metaBox := b, metaAcks := a } := by
+  unfold readMeta; split
+  · exact ⟨s.metaBox, s.metaAcks, rfl⟩
+  · exact ⟨_, _, rfl⟩
+
+theorem flushAck_cases (s : St) :
+    (s.upAnn = [] ∧ s.idAnn = [] ∧ s.results = [] ∧ flushAck s = s) ∨
+    ((s.upAnn ≠ [] ∨ s.idAnn ≠ [] ∨ s.results ≠ []) ∧
+      flushAck s = { s with ackId := s.ackId + 1, acks := s.acks ++ [⟨s.ackId + 1, s.upAnn, s.idAnn, s.results⟩],
+                            upAnn := [], idAnn := [], results := [], out := s.out ++ [0] }) := by
+  unfold flushAck
+  split
+  · next h =>
+    simp only [List.isEmpty_iff] at h
+    exact .inl ⟨h.1, h.2.1, h.2.2, rfl⟩
+  · next h =>
+    simp only [List.isEmpty_iff] at h
+    refine .inr ⟨?_, rfl⟩
+    by_cases h1 : s.upAnn = []
+    · by_cases h2 : s.idAnn = []
+      · by_cases h3 : s.results = []
+        · exact absurd ⟨h1, h2, h3⟩ h
+        · exact .inr (.inr h3)
+      · exact .inr (.inl h2)
+    · exact .inl h1
+
+theorem close_eq (s : St) : close s = { flushAck s with closeReq := true, out := (flushAck s).out ++ [1] } := rfl
+
+/-- every event only appends to the alias tables -/
+theorem assignUp_upFwd_grows (s : St) (r : UpRef) : ∃ m, (assignUp s r).upFwd = s.upFwd ++ m := by
+  unfold assignUp
+  split
+  · exact ⟨[], by simp⟩
+  · split
+    · exact ⟨[], by simp⟩
+    · exact ⟨_, rfl⟩
+
+theorem assignUp_idFwd (s : St) (r : UpRef) : (assignUp s r).idFwd = s.idFwd := by
+  obtain ⟨g, t, a, h⟩ := assignUp_shape s r; rw [h]
+
+theorem assignIds_upFwd (s : St) (gs : List Up.WGroup) : (assignIds s gs).upFwd = s.upFwd := by
+  obtain ⟨g, t, a, h⟩ := assignIds_shape gs s; rw [h]
+
+theorem assignIds_idFwd_grows (gs : List Up.WGroup) : ∀ (s : St), ∃ m, (assignIds s gs).idFwd = s.idFwd ++ m := by
+  induction gs with
+  | nil => intro s; exact ⟨[], by simp [assignIds]⟩
+  | cons g r ih =>
+    intro s
+    unfold assignIds
+    split
+    · exact ih s
+    · split
+      · exact ih s
+      · next d _ _ =>
+        obtain ⟨m, h⟩ := ih { s with idGen := aliasNext s.idGen, idFwd := s.idFwd ++ [(aliasNext s.idGen, d)],
+                                      idAnn := s.idAnn ++ [(aliasNext s.idGen, d)] }
+        exact ⟨(aliasNext s.idGen, d) :: m, by rw [h]; simp⟩
+
+theorem readPre_grows (s : St) (c : WChunk) (rest : List WChunk) :
+    (∃ m, (readPre s c rest).upFwd = s.upFwd ++ m) ∧ (∃ m, (readPre s c rest).idFwd = s.idFwd ++ m) := by
+  unfold readPre
+  constructor
+  · rw [assignIds_upFwd]; exact assignUp_upFwd_grows _ _
+  · obtain ⟨m, h⟩ := assignIds_idFwd_grows c.groups (assignUp { s with inbox := rest } c.up)
+    exact ⟨m, by rw [h, assignUp_idFwd]⟩
+
+theorem read_grows (s : St) :
+    (∃ m, (read s).1.upFwd = s.upFwd ++ m) ∧ (∃ m, (read s).1.idFwd = s.idFwd ++ m) := by
+  cases hi : s.inbox with
+  | nil => rw [read_nil hi]; exact ⟨⟨[], by simp⟩, ⟨[], by simp⟩⟩
+  | cons c rest =>
+    rcases read_cases hi with ⟨u, gs, _, _, h⟩ | ⟨_, h⟩
+    · rw [h]; exact readPre_grows s c rest
+    · rw [h]; exact readPre_grows s c rest
+
+theorem flushAck_upFwd (s : St) : (flushAck s).upFwd = s.upFwd := by
+  rcases flushAck_cases s with ⟨_, _, _, h⟩ | ⟨_, h⟩ <;> rw [h]
+theorem flushAck_idFwd (s : St) : (flushAck s).idFwd = s.idFwd := by
+  rcases flushAck_cases s with ⟨_, _, _, h⟩ | ⟨_, h⟩ <;> rw [h]
+
+theorem step_grows (s : St) (e : Ev) :
+    (∃ m, (step s e).upFwd = s.upFwd ++ m) ∧ (∃ m, (step s e).idFwd = s.idFwd ++ m) := by
+  cases e with
+  | arrive c => obtain ⟨i, h⟩ := arrive_shape s c; simp only [step, h]; exact ⟨⟨[], by simp⟩, ⟨[], by simp⟩⟩
+  | read => exact read_grows s
+  | flushAck => simp only [step, flushAck_upFwd, flushAck_idFwd]; exact ⟨⟨[], by simp⟩, ⟨[], by simp⟩⟩
+  | close => simp only [step, close_eq, flushAck_upFwd, flushAck_idFwd]; exact ⟨⟨[], by simp⟩, ⟨[], by simp⟩⟩
+  | arriveMeta n r => obtain ⟨i, h⟩ := arriveMeta_shape s n r; simp only [step, h]; exact ⟨⟨[], by simp⟩, ⟨[], by simp⟩⟩
+  | readMeta => obtain ⟨b, a, h⟩ := readMeta_shape s; simp only [step, h]; exact ⟨⟨[], by simp⟩, ⟨[], by simp⟩⟩
+  | resume => exact ⟨⟨[], by simp [step]⟩, ⟨[], by simp [step]⟩⟩
+
+theorem run_cons (s : St) (e : Ev) (r : List Ev) : run s (e :: r) = run (step s e) r := rfl
+theorem run_nil (s : St) : run s [] = s := rfl
+
+/-- a read only touches the inbox, the alias tables / generators / announcement buffers and the result buffer -/
+theorem read_shape (s : St) : ∃ i g t a g' t' a' r,
+    (read s).1 = { s with inbox := i, upGen := g, upFwd := t, upAnn := a, idGen := g', idFwd := t', idAnn := a', results := r } := by
+  cases hi : s.inbox with
+  | nil => rw [read_nil hi]; exact ⟨s.inbox, s.upGen, s.upFwd, s.upAnn, s.idGen, s.idFwd, s.idAnn, s.results, rfl⟩
+  | cons c rest =>
+    obtain ⟨g, t, a, g', t', a', hp⟩ := readPre_shape s c rest
+    rcases read_cases hi with ⟨u, gs, _, _, h⟩ | ⟨_, h⟩
+    · rw [h]; exact ⟨rest, g, t, a, g', t', a', s.results ++ [(u, c.seq)], by rw [hp]⟩
+    · rw [h]; exact ⟨rest, g, t, a, g', t', a', s.results, by rw [hp]⟩
+
+theorem flushAck_shape (s : St) : ∃ i k ua ia r o,
+    flushAck s = { s with ackId := i, acks := k, upAnn := ua, idAnn := ia, results := r, out := o } := by
+  rcases flushAck_cases s with ⟨_, _, _, h⟩ | ⟨_, h⟩
+  · exact ⟨s.ackId, s.acks, s.upAnn, s.idAnn, s.results, s.out, by rw [h]⟩
+  · exact ⟨_, _, _, _, _, _, h⟩
+
+theorem close_shape (s : St) : ∃ i k ua ia r o,
+    close s = { s with ackId := i, acks := k, upAnn := ua, idAnn := ia, results := r, out := o, closeReq := true } := by
+  obtain ⟨i, k, ua, ia, r, o, h⟩ := flushAck_shape s
+  exact ⟨i, k, ua, ia, r, o ++ [1], by rw [close_eq, h]⟩
+
+/-! ### metadata -/
+
+/-- the request id carried by a metadata arrival -/
+def metaReq : Ev → Option Nat
+  | .arriveMeta _ r => some r
+  | _ => none
+
+def metaView (s : St) : List Nat := s.metaAcks ++ s.metaBox.map (·.2)
+
+theorem step_metaView (s : St) (e : Ev) (h : s.metaBox.length < cap) :
+    metaView (step s e) = metaView s ++ (metaReq e).toList := by
+  cases e with
+  | arrive c => obtain ⟨i, h⟩ := arrive_shape s c; simp [step, h, metaView, metaReq]
+  | read => obtain ⟨i, g, t, a, g', t', a', r, h⟩ := read_shape s; simp [step, h, metaView, metaReq]
+  | flushAck => obtain ⟨i, k, ua, ia, r, o, h⟩ := flushAck_shape s; simp [step, h, metaView, metaReq]
+  | close => obtain ⟨i, k, ua, ia, r, o, h⟩ := close_shape s; simp [step, h, metaView, metaReq]
+  | arriveMeta n r => simp [step, arriveMeta_of_lt n r h, metaView, metaReq]
+  | readMeta =>
+    simp only [step, readMeta, metaView, metaReq]
+    cases hb : s.metaBox with
+    | nil => simp [hb]
+    | cons m r => simp
+  | resume => simp [step, metaView, metaReq]
+
+theorem run_metaView (evs : List Ev) : ∀ (s : St), (∀ k, (run s (evs.take k)).metaBox.length < cap) →
+    metaView (run s evs) = metaView s ++ evs.filterMap metaReq := by
+  induction evs with
+  | nil => intro s _; simp [run]
+  | cons e r ih =>
+    intro s hc
+    have h0 : s.metaBox.length < cap := hc 0
+    have hr : ∀ k, (run (step s e) (r.take k)).metaBox.length < cap := fun k => hc (k + 1)
+    rw [run_cons, ih _ hr, step_metaView s e h0]
+    cases hm : metaReq e <;> simp [hm]
+
+/-! ### acknowledgements -/
+
+/-- the results of every ack sent so far followed by the results still buffered -/
+def ackedResults (s : St) : List (Nat × Nat) := s.acks.flatMap (·.results) ++ s.results
+
+/-- what a read outcome contributes to the acknowledged results -/
+def outResult : ReadOut → List (Nat × Nat)
+  | .chunk c => [(c.up, c.seq)]
+  | _ => []
+
+theorem read_acked (s : St) : ackedResults (read s).1 = ackedResults s ++ outResult (read s).2 := by
+  cases hi : s.inbox with
+  | nil => rw [read_nil hi]; simp [outResult]
+  | cons c rest =>
+    obtain ⟨g, t, a, g', t', a', hp⟩ := readPre_shape s c rest
+    rcases read_cases hi with ⟨u, gs, _, _, h⟩ | ⟨_, h⟩
+    · rw [h, hp]; simp [ackedResults, outResult]
+    · rw [h, hp]; simp [ackedResults, outResult]
+
+theorem flushAck_acked (s : St) : ackedResults (flushAck s) = ackedResults s := by
+  rcases flushAck_cases s with ⟨_, _, _, h⟩ | ⟨_, h⟩
+  · rw [h]
+  · rw [h]; simp [ackedResults, List.flatMap_append]
+
+theorem step_acked (s : St) (e : Ev) :
+    ackedResults (step s e) = ackedResults s ++ (match e with | .read => outResult (read s).2 | _ => []) := by
+  cases e with
+  | arrive c => obtain ⟨i, h⟩ := arrive_shape s c; simp [step, h, ackedResults]
+  | read => exact read_acked s
+  | flushAck => simp [step, flushAck_acked]
+  | close =>
+    have : ackedResults (close s) = ackedResults (flushAck s) := rfl
+    simp [step, this, flushAck_acked]
+  | arriveMeta n r => obtain ⟨i, h⟩ := arriveMeta_shape s n r; simp [step, h, ackedResults]
+  | readMeta => obtain ⟨b, a, h⟩ := readMeta_shape s; simp [step, h, ackedResults]
+  | resume => simp [step]
+
+/-- ack ids count the acks -/
+def AckInv (s : St) : Prop := s.acks.map (·.id) = List.range' 1 s.acks.length ∧ s.ackId = s.acks.length
+
+theorem flushAck_AckInv {s : St} (h : AckInv s) : AckInv (flushAck s) := by
+  rcases flushAck_cases s with ⟨_, _, _, hf⟩ | ⟨_, hf⟩
+  · rw [hf]; exact h
+  · rw [hf]
+    obtain ⟨h1, h2⟩ := h
+    refine ⟨?_, ?_⟩
+    · simp only [List.map_append, List.map_cons, List.map_nil, List.length_append, List.length_cons, List.length_nil,
+        h1, h2, List.range'_concat]
+      simp [Nat.add_comm]
+    · simp [h2]
+
+theorem step_AckInv {s : St} (e : Ev) (h : AckInv s) : AckInv (step s e) := by
+  cases e with
+  | arrive c => obtain ⟨i, hs⟩ := arrive_shape s c; simp only [step, hs]; exact h
+  | read => obtain ⟨i, g, t, a, g', t', a', r, hs⟩ := read_shape s; simp only [step, hs]; exact h
+  | flushAck => exact flushAck_AckInv h
+  | close => exact flushAck_AckInv h
+  | arriveMeta n r => obtain ⟨i, hs⟩ := arriveMeta_shape s n r; simp only [step, hs]; exact h
+  | readMeta => obtain ⟨b, a, hs⟩ := readMeta_shape s; simp only [step, hs]; exact h
+  | resume => exact h
+
+theorem run_AckInv (evs : List Ev) : ∀ {s : St}, AckInv s → AckInv (run s evs) := by
+  induction evs with
+  | nil => intro s h; exact h
+  | cons e r ih => intro s h; rw [run_cons]; exact ih (step_AckInv e h)
+
+theorem initWith_AckInv (ids : List DataID) : AckInv (initWith ids) := by
+  simp [AckInv]
+
+/-! ### alias tables -/
+
+theorem aliasNext_of_lt {n : Nat} (h : n < 4294967295) : aliasNext n = n + 1 := by
+  unfold aliasNext
+  have h1 : (n + 1) % 4294967296 = n + 1 := Nat.mod_eq_of_lt (by omega)
+  simp only [h1]
+  rw [if_neg (by omega)]
+
+/-- a table and its generator: the bound things are pairwise distinct, and as long as the table holds fewer than 2^32 - 1
+    entries (the generator has not wrapped) the aliases are 1, 2, …, in order, the generator standing at the last one -/
+structure TInv {α : Type} (t : List (Nat × α)) (g : Nat) : Prop where
+  vals : (t.map (·.2)).Nodup
+  keys : t.length < 4294967295 → t.map (·.1) = List.range' 1 t.length ∧ g = t.length
+
+theorem TInv.nil {α : Type} : TInv ([] : List (Nat × α)) 0 := ⟨by simp, fun _ => by simp⟩
+
+theorem TInv.mint {α : Type} {t : List (Nat × α)} {g : Nat} (h : TInv t g) (x : α) (hx : ∀ e ∈ t, e.2 ≠ x) :
+    TInv (t ++ [(aliasNext g, x)]) (aliasNext g) := by
+  constructor
+  · simp only [List.map_append, List.map_cons, List.map_nil]
+    rw [List.nodup_append]
+    refine ⟨h.vals, by simp, ?_⟩
+    intro a ha b hb
+    simp only [List.mem_singleton] at hb
+    subst hb
+    obtain ⟨e, he, rfl⟩ := List.mem_map.mp ha
+    exact hx e he
+  · intro hl
+    simp only [List.length_append, List.length_cons, List.length_nil] at hl
+    obtain ⟨hk, hg⟩ := h.keys (by omega)
+    subst hg
+    rw [aliasNext_of_lt (by omega)]
+    refine ⟨?_, by simp⟩
+    simp only [List.map_append, List.map_cons, List.map_nil, List.length_append, List.length_cons, List.length_nil, hk,
+      List.range'_concat]
+    simp [Nat.add_comm]
+
+theorem idRev_none {s : St} {d : DataID} (h : ¬ (idRev s d).isSome = true) : ∀ e ∈ s.idFwd, e.2 ≠ d := by
+  intro e he hd
+  apply h
+  unfold idRev
+  rw [Option.isSome_map, List.find?_isSome]
+  exact ⟨e, he, by simpa using hd⟩
+
+theorem upRev_none {s : St} {u : Nat} (h : ¬ (upRev s u).isSome = true) : ∀ e ∈ s.upFwd, e.2 ≠ u := by
+  intro e he hd
+  apply h
+  unfold upRev
+  rw [Option.isSome_map, List.find?_isSome]
+  exact ⟨e, he, by simpa using hd⟩
+
+/-- the alias invariant of reachable states; `init` is the pre-registered part of the data-id table -/
+structure AInv (init : List (Nat × DataID)) (s : St) : Prop where
+  upEq : s.upFwd = s.acks.flatMap (·.upAnn) ++ s.upAnn
+  idEq : s.idFwd = init ++ (s.acks.flatMap (·.idAnn) ++ s.idAnn)
+  upT : TInv s.upFwd s.upGen
+  idT : TInv s.idFwd s.idGen
+
+theorem AInv.congr {init : List (Nat × DataID)} {s s' : St} (h : AInv init s)
+    (h1 : s'.upFwd = s.upFwd) (h2 : s'.upGen = s.upGen) (h3 : s'.upAnn = s.upAnn)
+    (h4 : s'.idFwd = s.idFwd) (h5 : s'.idGen = s.idGen) (h6 : s'.idAnn = s.idAnn) (h7 : s'.acks = s.acks) : AInv init s' := by
+  constructor
+  · rw [h1, h3, h7]; exact h.upEq
+  · rw [h4, h6, h7]; exact h.idEq
+  · rw [h1, h2]; exact h.upT
+  · rw [h4, h5]; exact h.idT
+
+theorem assignUp_AInv {init : List (Nat × DataID)} {s : St} (h : AInv init s) (r : UpRef) : AInv init (assignUp s r) := by
+  unfold assignUp
+  split
+  · exact h
+  · next u =>
+    split
+    · exact h
+    · next hn =>
+      constructor
+      · show s.upFwd ++ [(aliasNext s.upGen, u)] = s.acks.flatMap (·.upAnn) ++ (s.upAnn ++ [(aliasNext s.upGen, u)])
+        rw [h.upEq, List.append_assoc]
+      · exact h.idEq
+      · exact h.upT.mint u (upRev_none hn)
+      · exact h.idT
+
+theorem assignIds_AInv {init : List (Nat × DataID)} (gs : List Up.WGroup) :
+    ∀ {s : St}, AInv init s → AInv init (assignIds s gs) := by
+  induction gs with
+  | nil => intro s h; exact h
+  | cons g r ih =>
+    intro s h
+    unfold assignIds
+    split
+    · exact ih h
+    · next d _ =>
+      split
+      · exact ih h
+      · next hn =>
+        apply ih
+        constructor
+        · exact h.upEq
+        · show s.idFwd ++ [(aliasNext s.idGen, d)] = init ++ (s.acks.flatMap (·.idAnn) ++ (s.idAnn ++ [(aliasNext s.idGen, d)]))
+          rw [h.idEq]; simp only [List.append_assoc]
+        · exact h.upT
+        · exact h.idT.mint d (idRev_none hn)
+
+theorem flushAck_AInv {init : List (Nat × DataID)} {s : St} (h : AInv init s) : AInv init (flushAck s) := by
+  rcases flushAck_cases s with ⟨_, _, _, hf⟩ | ⟨_, hf⟩
+  · rw [hf]; exact h
+  · rw [hf]
+    constructor
+    · show s.upFwd = (s.acks ++ [(⟨s.ackId + 1, s.upAnn, s.idAnn, s.results⟩ : Ack)]).flatMap (·.upAnn) ++ []
+      rw [h.upEq]; simp [List.flatMap_append]
+    · show s.idFwd = init ++ ((s.acks ++ [(⟨s.ackId + 1, s.upAnn, s.idAnn, s.results⟩ : Ack)]).flatMap (·.idAnn) ++ [])
+      rw [h.idEq]; simp [List.flatMap_append]
+    · exact h.upT
+    · exact h.idT
+
+theorem read_AInv {init : List (Nat × DataID)} {s : St} (h : AInv init s) : AInv init (read s).1 := by
+  cases hi : s.inbox with
+  | nil => rw [read_nil hi]; exact h
+  | cons c rest =>
+    have h0 : AInv init { s with inbox := rest } := h.congr rfl rfl rfl rfl rfl rfl rfl
+    have h1 : AInv init (readPre s c rest) := assignIds_AInv c.groups (assignUp_AInv h0 c.up)
+    rcases read_cases hi with ⟨u, gs, _, _, hr⟩ | ⟨_, hr⟩
+    · rw [hr]; exact h1.congr rfl rfl rfl rfl rfl rfl rfl
+    · rw [hr]; exact h1
+
+theorem step_AInv {init : List (Nat × DataID)} {s : St} (e : Ev) (h : AInv init s) : AInv init (step s e) := by
+  cases e with
+  | arrive c => obtain ⟨i, hs⟩ := arrive_shape s c; simp only [step, hs]; exact h.congr rfl rfl rfl rfl rfl rfl rfl
+  | read => exact read_AInv h
+  | flushAck => exact flushAck_AInv h
+  | close => exact (flushAck_AInv h).congr rfl rfl rfl rfl rfl rfl rfl
+  | arriveMeta n r => obtain ⟨i, hs⟩ := arriveMeta_shape s n r; simp only [step, hs]; exact h.congr rfl rfl rfl rfl rfl rfl rfl
+  | readMeta => obtain ⟨b, a, hs⟩ := readMeta_shape s; simp only [step, hs]; exact h.congr rfl rfl rfl rfl rfl rfl rfl
+  | resume => exact h
+
+theorem run_AInv {init : List (Nat × DataID)} (evs : List Ev) : ∀ {s : St}, AInv init s → AInv init (run s evs) := by
+  induction evs with
+  | nil => intro s h; exact h
+  | cons e r ih => intro s h; rw [run_cons]; exact ih (step_AInv e h)
+
+theorem initWith_TInv (ids : List DataID) (hid : ids.Nodup) : TInv (initWith ids).idFwd (initWith ids).idGen := by
+  have h : ∀ (s : St), TInv s.idFwd s.idGen → (s.idFwd.map (·.2) ++ ids).Nodup →
+      TInv (ids.foldl (fun s d => let a := aliasNext s.idGen; { s with idGen := a, idFwd := s.idFwd ++ [(a, d)] }) s).idFwd
+           (ids.foldl (fun s d => let a := aliasNext s.idGen; { s with idGen := a, idFwd := s.idFwd ++ [(a, d)] }) s).idGen := by
+    induction ids with
+    | nil => intro s h _; exact h
+    | cons d r ih =>
+      intro s h hn
+      rw [List.foldl_cons]
+      have hd : ∀ e ∈ s.idFwd, e.2 ≠ d := by
+        intro e he hed
+        rw [List.nodup_append] at hn
+        exact hn.2.2 e.2 (List.mem_map.mpr ⟨e, he, rfl⟩) d List.mem_cons_self hed
+      apply ih (List.nodup_cons.mp hid).2
+      · exact h.mint d hd
+      · show ((s.idFwd ++ [(aliasNext s.idGen, d)]).map (·.2) ++ r).Nodup
+        simpa using hn
+  exact h {} TInv.nil (by simpa using hid)
+
+theorem initWith_AInv (ids : List DataID) (hid : ids.Nodup) : AInv (initWith ids).idFwd (initWith ids) := by
+  constructor
+  · simp
+  · simp
+  · rw [initWith_upFwd, initWith_upGen]; exact TInv.nil
+  · exact initWith_TInv ids hid
+
+/-! ### the generator wraps around: 2^32 fresh data ids in one chunk bind alias 1 twice
+
+Used only to show that C04.alias_injective needs a bound on the table size (a bound on the final generator value is not enough). -/
+
+/-- groups with the full-form data ids k, k+1, …, k+n-1 -/
+def freshGroups (k n : Nat) : List Up.WGroup := (List.range' k n).map (fun d => ⟨.id d, []⟩)
+
+/-- the table alias i+1 ↦ id i for i < k -/
+def seqTable (k : Nat) : List (Nat × DataID) := (List.range k).map (fun i => (i + 1, i))
+
+theorem freshGroups_succ (k n : Nat) : freshGroups k (n + 1) = ⟨.id k, []⟩ :: freshGroups (k + 1) n := by
+  simp [freshGroups, List.range'_succ]
+
+theorem freshGroups_concat (k n : Nat) : freshGroups k (n + 1) = freshGroups k n ++ [⟨.id (k + n), []⟩] := by
+  simp [freshGroups, List.range'_concat]
+
+theorem seqTable_succ (k : Nat) : seqTable (k + 1) = seqTable k ++ [(k + 1, k)] := by
+  simp [seqTable, List.range_succ]
+
+theorem assignIds_append (l1 l2 : List Up.WGroup) : ∀ (s : St), assignIds s (l1 ++ l2) = assignIds (assignIds s l1) l2 := by
+  induction l1 with
+  | nil => intro s; rfl
+  | cons g r ih =>
+    intro s
+    rw [List.cons_append]
+    cases hg : g.ref with
+    | «alias» a => simp only [assignIds, hg]; exact ih s
+    | id d =>
+      simp only [assignIds, hg]
+      split
+      · exact ih s
+      · exact ih _
+
+theorem idRev_seqTable {s : St} {k d : Nat} (h : s.idFwd = seqTable k) (hd : k ≤ d) : ¬ (idRev s d).isSome = true := by
+  unfold idRev
+  rw [h, Option.isSome_map, List.find?_isSome]
+  rintro ⟨e, he, hed⟩
+  obtain ⟨i, hi, rfl⟩ := List.mem_map.mp he
+  simp only [List.mem_range, decide_eq_true_eq] at hi hed
+  have : i = d := hed
+  omega
+
+theorem assignIds_one_fresh {s : St} {k : Nat} (h : s.idFwd = seqTable k) :
+    assignIds s [⟨.id k, []⟩] =
+      { s with idGen := aliasNext s.idGen, idFwd := s.idFwd ++ [(aliasNext s.idGen, k)], idAnn := s.idAnn ++ [(aliasNext s.idGen, k)] } := by
+  simp only [assignIds]
+  rw [if_neg (idRev_seqTable h (Nat.le_refl k))]
+
+theorem assignIds_fresh (n : Nat) : ∀ (k : Nat) (s : St), s.idFwd = seqTable k → s.idGen = k → k + n ≤ 4294967295 →
+    (assignIds s (freshGroups k n)).idFwd = seqTable (k + n) ∧ (assignIds s (freshGroups k n)).idGen = k + n := by
+  induction n with
+  | zero => intro k s h1 h2 _; exact ⟨h1, h2⟩
+  | succ n ih =>
+    intro k s h1 h2 hb
+    have hc : freshGroups k (n + 1) = [⟨.id k, []⟩] ++ freshGroups (k + 1) n := freshGroups_succ k n
+    rw [hc, assignIds_append, assignIds_one_fresh h1]
+    have ha : aliasNext s.idGen = k + 1 := by rw [h2]; exact aliasNext_of_lt (by omega)
+    have := ih (k + 1) { s with idGen := aliasNext s.idGen, idFwd := s.idFwd ++ [(aliasNext s.idGen, k)],
+                                idAnn := s.idAnn ++ [(aliasNext s.idGen, k)] }
+      (by show s.idFwd ++ [(aliasNext s.idGen, k)] = seqTable (k + 1); rw [ha, h1, seqTable_succ])
+      ha (by omega)
+    have e : k + 1 + n = k + (n + 1) := by omega
+    rw [e] at this
+    exact this
+
+/-- M + 1 fresh ids where the generator wraps at M: the last one gets alias 1 again -/
+theorem assignIds_wrap (M : Nat) (hM1 : M ≤ 4294967295) (hM2 : aliasNext M = 1) :
+    (assignIds {} (freshGroups 0 (M + 1))).idFwd = seqTable M ++ [(1, M)] ∧ (assignIds {} (freshGroups 0 (M + 1))).idGen = 1 := by
+  obtain ⟨h1, h2⟩ := assignIds_fresh M 0 {} rfl rfl (by omega)
+  rw [Nat.zero_add] at h1 h2
+  rw [freshGroups_concat, assignIds_append, Nat.zero_add, assignIds_one_fresh h1, h1, h2, hM2]
+  exact ⟨rfl, rfl⟩
+
+/-- one chunk with an unknown upstream alias (its data ids are registered all the same), read from the initial state -/
+theorem run_one_chunk (gs : List Up.WGroup) :
+    (run (initWith []) [.arrive ⟨.alias 0, 0, gs⟩, .read]).idFwd = (assignIds {} gs).idFwd ∧
+    (run (initWith []) [.arrive ⟨.alias 0, 0, gs⟩, .read]).idGen = (assignIds {} gs).idGen ∧
+    (run (initWith []) [.arrive ⟨.alias 0, 0, gs⟩, .read]).upGen = 0 := by
+  have h0 : initWith [] = {} := rfl
+  have h1 : step {} (.arrive ⟨.alias 0, 0, gs⟩) = { inbox := [⟨.alias 0, 0, gs⟩] } :=
+    arrive_of_lt (s := {}) _ (by decide)
+  have hp : readPre { inbox := [⟨.alias 0, 0, gs⟩] } ⟨.alias 0, 0, gs⟩ [] = assignIds {} gs := rfl
+  have h2 : read { inbox := [⟨.alias 0, 0, gs⟩] } = (assignIds {} gs, .errAlias) := by
+    rw [← hp]
+    refine read_cons_none rfl (.inl ?_)
+    rw [hp]
+    show alGet 0 (assignIds {} gs).upFwd = none
+    rw [assignIds_upFwd]; rfl
+  rw [run_cons, run_cons, run_nil, h0, h1]
+  show (read _).1.idFwd = _ ∧ (read _).1.idGen = _ ∧ (read _).1.upGen = 0
+  rw [h2]
+  refine ⟨rfl, rfl, ?_⟩
+  obtain ⟨g, t, a, h⟩ := assignIds_shape gs {}
+  rw [h]
+
+end Iscp.Down
